@@ -6,6 +6,7 @@
 
 use crate::engine::tape::Gen;
 use std::fmt::Write as _;
+use std::ops::Not;
 
 #[derive(Clone, Debug, PartialEq)]
 pub enum Ty {
@@ -165,6 +166,7 @@ pub struct Prog {
 pub struct Features {
     pub self_uses: u32,
     pub tuple_self: u32,
+    pub nested_tuple_self: u32,
     pub mems: u32,
     pub delays: u32,
     pub max_delay: u32,
@@ -201,6 +203,7 @@ impl Features {
         }
         f!(self.self_uses > 0, "f:self");
         f!(self.tuple_self > 0, "f:tuple-self");
+        f!(self.nested_tuple_self > 0, "f:nested-tuple-self");
         f!(self.mems > 0, "f:mem");
         f!(self.delays > 0, "f:delay");
         f!(self.delays > 1, "f:multi-delay");
@@ -276,6 +279,8 @@ pub struct PCfg {
     pub if_in_lambda: bool,
     /// maker functions may be called inside functions (a closure instance per sample), C12
     pub makers_in_dsp: bool,
+    /// nested tuple types (e.g. `(float,(float,float))`) for parameters, returns and `self`
+    pub nested_tuples: bool,
 }
 
 impl Default for PCfg {
@@ -312,6 +317,7 @@ impl Default for PCfg {
             capture_in_branch: true,
             if_in_lambda: true,
             makers_in_dsp: false,
+            nested_tuples: false,
         }
     }
 }
@@ -404,7 +410,12 @@ impl<'a> PG<'a> {
             0 => Ty::Num,
             1 => {
                 let n = self.g.int(2, 3) as usize;
-                Ty::Tup((0..n).map(|_| Ty::Num).collect())
+                let mut ts: Vec<Ty> = (0..n).map(|_| Ty::Num).collect();
+                if self.cfg.nested_tuples && self.g.bool(1, 3) {
+                    let k = self.g.usize_below(n);
+                    ts[k] = Ty::Tup(vec![Ty::Num, Ty::Num]);
+                }
+                Ty::Tup(ts)
             }
             _ => {
                 let n = self.g.int(1, 3) as usize;
@@ -510,6 +521,7 @@ impl<'a> PG<'a> {
         let tup_vars: Vec<VarInfo> = sc.vars.iter().filter(|v| self.visible(sc, v)).chain(self.globals.iter()).filter(|v| matches!(&v.ty, Ty::Tup(ts) if ts.iter().all(|t| *t == Ty::Num))).cloned().collect();
         let rec_vars: Vec<VarInfo> = sc.vars.iter().filter(|v| self.visible(sc, v)).chain(self.globals.iter()).filter(|v| matches!(&v.ty, Ty::Rec(_))).cloned().collect();
         let clo_vars: Vec<VarInfo> = sc.vars.iter().filter(|v| self.visible(sc, v)).chain(self.globals.iter()).filter(|v| matches!(&v.ty, Ty::Fun(_, r) if **r == Ty::Num)).cloned().collect();
+        let tuple_callees: Vec<FnSig> = self.fns.iter().filter(|f| matches!(f.ret, Ty::Tup(_)) && f.ret.is_flat_num() && !f.maker && (sc.allow_state || !f.stateful) && (self.cfg.state_in_branches || !sc.in_branch || !f.stateful) && !(sc.in_lambda && f.params.iter().any(|p| matches!(p, Ty::Fun(..))))).cloned().collect();
         let state_ok = self.cfg.state && sc.allow_state && (self.cfg.state_in_branches || !sc.in_branch);
         let delay_ok = state_ok && self.cfg.delays && (self.cfg.multi_delay_per_fn || !sc.fn_has_delay);
         let tuple_self = matches!(&sc.self_ty, Some(Ty::Tup(_)));
@@ -532,6 +544,7 @@ impl<'a> PG<'a> {
             if self.cfg.hof && !sc.in_lambda { 1 } else { 0 },   // 15 inline lambda application via pipe
             1,                                                   // 16 comparison / logic as value
             if self.cfg.makers_in_dsp && !sc.in_lambda && self.fns.iter().any(|f| f.maker) { 3 } else { 0 }, // 17 per-sample maker instance
+            if self.cfg.nested_tuples && tuple_callees.is_empty().not() { 4 } else { 0 }, // 18 destructure a tuple-returning call
         ];
         match self.g.weighted(&w) {
             0 => self.leaf_num(sc),
@@ -622,10 +635,11 @@ impl<'a> PG<'a> {
                 // `let (a, b) = self  a` — projection needs a known tuple type, destructuring does not
                 self.feat.self_uses += 1;
                 self.feat.tuple_self += 1;
-                let n = if let Some(Ty::Tup(ts)) = &sc.self_ty { ts.len() } else { 1 };
-                let names: Vec<String> = (0..n).map(|_| self.fresh("sv")).collect();
-                let k = self.g.usize_below(n);
-                E::Block(vec![S::Let(Pat::Tup(names.iter().map(|x| Pat::Var(x.clone())).collect()), E::SelfV)], Box::new(E::Var(names[k].clone())))
+                let sty = sc.self_ty.clone().unwrap_or(Ty::Num);
+                let mut leaves = vec![];
+                let pat = self.pat_of_ty(&sty, &mut leaves);
+                let k = self.g.usize_below(leaves.len().max(1));
+                E::Block(vec![S::Let(pat, E::SelfV)], Box::new(E::Var(leaves.get(k).cloned().unwrap_or_default())))
             }
             15 => {
                 // x |> |a| body
@@ -638,6 +652,16 @@ impl<'a> PG<'a> {
                 let body = self.num(&mut inner);
                 let id = self.id();
                 E::Pipe(id, Box::new(x), Box::new(E::Lam(vec![Param { name: pname, ty: Ty::Num, annotate: false }], Box::new(body))))
+            }
+            18 => {
+                // { let (a, (b, c)) = f(args)  a + c }
+                let f = self.g.pick(&tuple_callees).clone();
+                let call = self.call_fn(&f, sc);
+                let mut leaves = vec![];
+                let pat = self.pat_of_ty(&f.ret, &mut leaves);
+                let a = leaves[self.g.usize_below(leaves.len())].clone();
+                let b = leaves[self.g.usize_below(leaves.len())].clone();
+                E::Block(vec![S::Let(pat, call)], Box::new(E::Bin(Bop::Add, Box::new(E::Var(a)), Box::new(E::Var(b)))))
             }
             17 => {
                 // { let c = mk(lit)  c() + c() } — a closure instance created and dropped per sample
@@ -701,6 +725,20 @@ impl<'a> PG<'a> {
         let b = self.expr(ty, sc);
         sc.in_branch = was;
         E::If(Box::new(c), Box::new(a), Box::new(b))
+    }
+
+    /// full destructuring pattern of a (possibly nested) tuple type; collects the numeric leaves
+    fn pat_of_ty(&mut self, ty: &Ty, leaves: &mut Vec<String>) -> Pat {
+        match ty {
+            Ty::Tup(ts) => Pat::Tup(ts.clone().iter().map(|t| self.pat_of_ty(t, leaves)).collect()),
+            _ => {
+                let n = self.fresh("sv");
+                if *ty == Ty::Num {
+                    leaves.push(n.clone());
+                }
+                Pat::Var(n)
+            }
+        }
     }
 
     fn pattern_for(&mut self, ty: &Ty, sc: &mut Scope, assignable: bool) -> Pat {
@@ -890,6 +928,9 @@ impl<'a> PG<'a> {
         let stateful = self.feat.self_uses > before.self_uses || self.feat.mems > before.mems || self.feat.delays > before.delays || sc.depth_stateful > 0;
         let ps = params.into_iter().map(|(n, t)| Param { name: n, annotate: !matches!(t, Ty::Num) || self.g.bool(1, 3), ty: t }).collect();
         let uses_self = self.feat.self_uses > before.self_uses;
+        if uses_self && matches!(&sc.self_ty, Some(Ty::Tup(ts)) if ts.iter().any(|t| matches!(t, Ty::Tup(_)))) {
+            self.feat.nested_tuple_self += 1;
+        }
         let annotate_ret = !matches!(ret, Ty::Num) || self.g.bool(1, 4) || (uses_self && !self.cfg.unannotated_self);
         (FnDef { name, params: ps, ret, annotate_ret, body }, stateful, sc.depth_stateful, before)
     }
@@ -933,7 +974,13 @@ impl<'a> PG<'a> {
                     let name = self.fresh("fun");
                     let np = self.g.int_small(0, 3) as usize;
                     let params: Vec<(String, Ty)> = (0..np).map(|_| (self.fresh("p"), self.small_ty(false))).collect();
-                    let ret = if self.g.bool(1, 4) { self.small_ty(false) } else { Ty::Num };
+                    let ret = if self.cfg.nested_tuples && self.g.bool(1, 5) {
+                        if self.g.coin() { Ty::Tup(vec![Ty::Num, Ty::Tup(vec![Ty::Num, Ty::Num])]) } else { Ty::Tup(vec![Ty::Tup(vec![Ty::Num, Ty::Num]), Ty::Num]) }
+                    } else if self.g.bool(1, 4) {
+                        self.small_ty(false)
+                    } else {
+                        Ty::Num
+                    };
                     let allow_state = self.cfg.state && self.g.bool(3, 4);
                     let (def, stateful, depth, _) = self.gen_fn(name.clone(), params.clone(), ret.clone(), allow_state);
                     self.fns.push(FnSig { name, params: params.into_iter().map(|(_, t)| t).collect(), ret, stateful, depth, maker: false });
